@@ -79,6 +79,25 @@ def run(ck, aspect):
                 elif aspect == "C03":
                     ck.report("entries-at-display", "the entries shown are not the entries pushed", desc)
             else:
+                # which source line each label is rendered under
+                import re as _re
+                cur = None
+                got_pairs = []
+                for ln_ in out.split("\n"):
+                    mm = _re.match(r"^\s*(\d+) \|", ln_)
+                    if mm:
+                        cur = int(mm.group(1))
+                        continue
+                    for L in set(want_labels):
+                        got_pairs += [(cur, L)] * ln_.count(L)
+                want_pairs = sorted((sh[0] + 1, L) for sh, L in zip(shown, want_labels))
+                if sorted(got_pairs, key=lambda x: (x[0] or 0, x[1])) != want_pairs and all(out.count(L) >= want_labels.count(L) for L in set(want_labels)):
+                    dis += 1
+                    if aspect == "C05":
+                        ck.report("text-under-another-entry", "an entry's text is rendered under the source line of another entry",
+                                  dict(desc, label_lines_rendered=got_pairs, label_lines_expected=want_pairs))
+                    elif aspect == "C03":
+                        ck.report("entry-at-wrong-line", "an entry is rendered under the source line of another entry", dict(desc, label_lines_rendered=got_pairs, label_lines_expected=want_pairs))
                 for L in set(want_labels):
                     if out.count(L) < want_labels.count(L):
                         dis += 1
